@@ -2,6 +2,7 @@ import TenpyModel.C01.B2_Dot10
 import TenpyModel.C01.B2_Prog
 import TenpyModel.C01.B2_Trace5
 import TenpyModel.C01.B2_InnerEx
+import TenpyModel.C01.B2_CombEx
 import TenpyModel.C01.PropsB
 /-!
 C01 part B2 — the theorems left open by part B (`PropsB.lean`): `tensordot` through `_tensordot_worker` and the
@@ -308,4 +309,195 @@ example : ∃ x, Arr.inner id C01Example.t C01ExampleB2I.ut (.pair [.lbl "b*", .
   cases h1
   cases h2
   rw [hx]
+  decide
+
+/-! ## combine_legs / split_legs (C06: "the pipe's index map agrees with where tensor entries are placed",
+"combining legs into a pipe and splitting it again restores the original tensor exactly")
+
+Helper definitions (namespace `TenpyModel.C01B2.Comb`, files `B2_Comb*.lean`): `cNonComb rank cl` = the spectator axes,
+`StdForm rank cl newAxes` (decidable) = the call needs no transposition (new axes ascending and in range, the source axes
+behind the result axes concatenate to `0 … rank-1` — exactly what `combine_legs` passes to its worker),
+`PipesOK a cl pipes` = the `g`-th pipe is a `LegPipe` over the legs of group `g` (any direction, sort / bunch on or off;
+`PipesOK2`: with these legs as incoming legs), `cLegs` = the legs of the result (`legs.insert(na, pipe)`),
+`combIdx a cl newAxes pipes idx` = the image of a multi-index: every group's sub-tuple replaced by
+`map_incoming_flat` of its pipe, spectator indices kept (`combIdx_getD`, restated in the theorem). -/
+
+/-- **`combine_legs` in standard form, any number of groups and spectator legs**, all three branches
+(`stored_blocks == 0`, `== 1`, `_combine_legs_worker`): `r[combIdx(idx)] = a[idx]` for every in-range `idx`; the image is
+in range; `combIdx` is a bijection between the index tuples of `a` and of `r`, so this determines `r` completely; axis by
+axis `combIdx` is `LegPipe.map_incoming_flat` on the group's sub-tuple resp. the spectator index; legs, total charge;
+`r` is well formed and its `_qdata` truthfully lexsorted. -/
+theorem C01_combine_places {α : Type} [Zero α] (a r : Arr α) (ha : a.WF) (cl : List (List Nat)) (newAxes : List Nat)
+    (pipes : List ALeg) (labels : List String) (hl1 : newAxes.length = cl.length) (hl2 : pipes.length = cl.length)
+    (hpipes : Comb.PipesOK a cl pipes) (hstd : Comb.StdForm a.rank cl newAxes)
+    (h : a.combineStd cl newAxes pipes labels = .ok r) :
+    (r.legs = Comb.cLegs a cl newAxes pipes ∧ r.rank = (Comb.cNonComb a.rank cl).length + cl.length
+      ∧ r.mods = a.mods ∧ r.qtotal = makeValid a.mods a.qtotal ∧ r.qdataSorted = true ∧ r.WF)
+    ∧ (∀ idx, InRange idx a.shape →
+        InRange (Comb.combIdx a cl newAxes pipes idx) r.shape ∧ r.entry (Comb.combIdx a cl newAxes pipes idx) = a.entry idx)
+    ∧ (∀ i1 i2, InRange i1 a.shape → InRange i2 a.shape →
+        Comb.combIdx a cl newAxes pipes i1 = Comb.combIdx a cl newAxes pipes i2 → i1 = i2)
+    ∧ (∀ idx', InRange idx' r.shape → ∃ idx, InRange idx a.shape ∧ Comb.combIdx a cl newAxes pipes idx = idx')
+    ∧ (∀ idx k, k < (Comb.cNonComb a.rank cl).length + cl.length →
+        (Comb.combIdx a cl newAxes pipes idx).getD k 0 =
+          if newAxes.contains k = true then
+            ((Comb.sP pipes (List.idxOf k newAxes)).mapIncomingFlat
+              (List.map Int.ofNat (pick idx (cl.getD (List.idxOf k newAxes) []) 0))).getD 0
+          else idx.getD ((Comb.cNonComb a.rank cl).getD
+            (List.idxOf k (Comb.cNonNew ((Comb.cNonComb a.rank cl).length + cl.length) newAxes)) 0) 0)
+    ∧ ((∀ x ∈ cl.flatten, x < a.rank) → ∀ idx, InRange idx a.shape → ∀ g, g < cl.length →
+        ∃ f, (Arr.pipeOf (pipes.getD g default)).mapIncomingFlat ((pick idx (cl.getD g []) 0).map Int.ofNat) = some f
+          ∧ f < (Arr.pipeOf (pipes.getD g default)).leg.indLen) := by
+  obtain ⟨c1, c2, c3, c4, _, _, _, c8, c9⟩ := Comb.combine_places a r ha cl newAxes pipes labels hl1 hl2 hpipes hstd h
+  obtain ⟨b1, b2⟩ := Comb.combIdx_bijective a r ha cl newAxes pipes labels hl1 hl2 hpipes hstd h
+  refine ⟨⟨c1, c2, c3, c4, c8, Comb.combine_WF a r ha cl newAxes pipes labels hl1 hl2 hpipes hstd h⟩, c9, b1, b2,
+    fun idx k hk => (Comb.combIdx_getD a cl newAxes pipes idx).2 k hk,
+    fun hcl idx hi g hg => Comb.combIdx_some a ha cl pipes hpipes hcl idx hi g hg⟩
+
+/-- non-vacuity (`Comb.Ex.t3`: rank 3 over U(1)×Z₃, duplicate sector, two stored blocks in unsorted order; spectator
+leg 0, group `[1, 2]` fused by a sorted, bunched pipe — the index map is not the row-major reshape; worker branch) -/
+example : Comb.Ex.t3.WF ∧ Comb.StdForm Comb.Ex.t3.rank [[1, 2]] [1] ∧ ¬ Comb.StdForm Comb.Ex.t3.rank [[0, 2]] [0] := by
+  decide
+example : Comb.PipesOK Comb.Ex.t3 [[1, 2]] [Comb.Ex.pBC] := by
+  intro g hg
+  have : g = 0 := by simpa using hg
+  subst this
+  exact ⟨1, true, true, _, rfl⟩
+example : (Comb.Ex.t3.combineStd [[1, 2]] [1] [Comb.Ex.pBC] ["a", "b", "?2"]).toOption.map
+      (fun r => (r.qdata, r.shape, r.labels, r.entry (Comb.combIdx Comb.Ex.t3 [[1, 2]] [1] [Comb.Ex.pBC] [3, 1, 1])))
+    = some ([[0, 0], [2, 0]], [4, 12], [some "a", some "(b.?2)"], Comb.Ex.t3.entry [3, 1, 1]) := by decide
+example : Comb.combIdx Comb.Ex.t3 [[1, 2]] [1] [Comb.Ex.pBC] [3, 1, 1] = [3, 1]
+    ∧ Comb.combIdx Comb.Ex.t3 [[1, 2]] [1] [Comb.Ex.pBC] [1, 2, 3] = [1, 4] ∧ Comb.Ex.t3.entry [3, 1, 1] = -7 := by decide
+
+/-- **the public `combine_legs`, no transposition needed** (`transp = range`): it is the standard-form call on the
+reordered groups (`cli`, `na`, `ps` = groups, new axes, pipes sorted by new axis), so entries are placed by `combIdx`.
+Hypotheses `hP` (the pipes are pipes over the groups' legs) and `hN` (no repeated new axis) are automatic for the
+default call `pipes = None, new_axes = None` (`Comb.combineLegs_default_hyps2`); tenpy checks neither for user-supplied
+arguments. -/
+theorem C01_combineLegs_places {α : Type} [Zero α] (a r : Arr α) (ha : a.WF) (cl : List (List Ax))
+    (newAxes : Option (List Int)) (pipes : Option (List (Option ALeg))) (qconj : List (Option Int))
+    (ps0 : List ALeg) (cli0 : List (List Nat)) (na0 : List Nat)
+    (hps : a.combineMakePipes cl pipes qconj = .ok ps0) (hcli : cl.mapM a.getLegIndices = .ok cli0)
+    (hnt : Arr.combineNewAxes a.rank cli0 newAxes = .ok (na0, List.range a.rank))
+    (hP : Comb.PipesOK a cli0 ps0) (hN : na0.Nodup) (h : a.combineLegs cl newAxes pipes qconj = .ok r) :
+    let cli := pick cli0 (Arr.argsortInt (na0.map Int.ofNat)) []
+    let na := pick na0 (Arr.argsortInt (na0.map Int.ofNat)) 0
+    let ps := pick ps0 (Arr.argsortInt (na0.map Int.ofNat)) default
+    a.combineStd cli na ps (Comb.cLabels a) = .ok r ∧ Comb.StdForm a.rank cli na ∧ Comb.PipesOK a cli ps
+      ∧ na.length = cli.length ∧ ps.length = cli.length ∧ r.WF ∧ r.legs = Comb.cLegs a cli na ps
+      ∧ r.qtotal = makeValid a.mods a.qtotal
+      ∧ ∀ idx, InRange idx a.shape →
+          InRange (Comb.combIdx a cli na ps idx) r.shape ∧ r.entry (Comb.combIdx a cli na ps idx) = a.entry idx :=
+  Comb.combineLegs_places_id a r ha cl newAxes pipes qconj ps0 cli0 na0 hps hcli hnt hP hN h
+
+/-- **the public `combine_legs` with its transposition step** (`transp ≠ range`): `t` = `a` transposed by `transp` (a
+permutation; part A's transpose theorem: `to_ndarray(t) = np.transpose(to_ndarray(a), transp)`), then the standard-form
+call on `t`: `r[combIdx_t(idx)] = a[unperm transp idx]` for every in-range index tuple `idx` of `t`. -/
+theorem C01_combineLegs_places_transposed {α : Type} [Zero α] (a r : Arr α) (ha : a.WF) (cl : List (List Ax))
+    (newAxes : Option (List Int)) (pipes : Option (List (Option ALeg))) (qconj : List (Option Int))
+    (ps0 : List ALeg) (cli0 : List (List Nat)) (na0 transp : List Nat)
+    (hps : a.combineMakePipes cl pipes qconj = .ok ps0) (hcli : cl.mapM a.getLegIndices = .ok cli0)
+    (hnt : Arr.combineNewAxes a.rank cli0 newAxes = .ok (na0, transp)) (htr : transp ≠ List.range a.rank)
+    (hP : Comb.PipesOK a cli0 ps0) (hN : na0.Nodup) (h : a.combineLegs cl newAxes pipes qconj = .ok r) :
+    let cli := (pick cli0 (Arr.argsortInt (na0.map Int.ofNat)) []).map
+      (fun c => c.map (fun x => (inversePerm transp).getD x 0))
+    let na := pick na0 (Arr.argsortInt (na0.map Int.ofNat)) 0
+    let ps := pick ps0 (Arr.argsortInt (na0.map Int.ofNat)) default
+    let t := Comb.cTransposed a transp
+    transp.Perm (List.range a.rank) ∧ t.WF ∧ t.toDense = a.toDense.transpose transp
+      ∧ t.legs = permuteList a.legs transp default
+      ∧ t.combineStd cli na ps (t.labels.map (fun l => l.getD "")) = .ok r
+      ∧ Comb.StdForm t.rank cli na ∧ Comb.PipesOK t cli ps ∧ r.WF ∧ r.legs = Comb.cLegs t cli na ps
+      ∧ r.qtotal = makeValid a.mods a.qtotal
+      ∧ ∀ idx, InRange idx t.shape →
+          InRange (Comb.combIdx t cli na ps idx) r.shape
+          ∧ r.entry (Comb.combIdx t cli na ps idx) = a.entry (unperm transp a.rank idx) := by
+  obtain ⟨h1, h2, h3, h4, h5, h6, h7, _, _, h10, h11, h12, h13⟩ :=
+    Comb.combineLegs_places_tr a r ha cl newAxes pipes qconj ps0 cli0 na0 transp hps hcli hnt htr hP hN h
+  exact ⟨h1.perm, h2, h3, h4, h5, h6, h7, h10, h11, h12, h13⟩
+
+/-- non-vacuity: `t3.combine_legs([1, 2], qconj=+1)` (no transposition) and `t3.combine_legs([2, 0])`
+(`transp = [1, 2, 0]`): hypotheses and placement -/
+example : Comb.Ex.t3.combineMakePipes [[.idx 1, .idx 2]] none [some 1] = .ok [Comb.Ex.pBC] := rfl
+example : [[Ax.idx 1, Ax.idx 2]].mapM Comb.Ex.t3.getLegIndices = .ok [[1, 2]]
+    ∧ Arr.combineNewAxes Comb.Ex.t3.rank [[1, 2]] none = .ok ([1], List.range Comb.Ex.t3.rank) ∧ [1].Nodup := by decide
+example : (Comb.Ex.t3.combineLegs [[.idx 1, .idx 2]] none none [some 1]).toOption.map
+      (fun r => (r.shape, r.labels, r.entry (Comb.combIdx Comb.Ex.t3 [[1, 2]] [1] [Comb.Ex.pBC] [3, 1, 1])))
+    = some ([4, 12], [some "a", some "(b.?2)"], Comb.Ex.t3.entry [3, 1, 1]) := by decide
+example : [[Ax.idx 2, Ax.idx 0]].mapM Comb.Ex.t3.getLegIndices = .ok [[2, 0]]
+    ∧ Arr.combineNewAxes Comb.Ex.t3.rank [[2, 0]] none = .ok ([1], [1, 2, 0])
+    ∧ [1, 2, 0] ≠ List.range Comb.Ex.t3.rank ∧ unperm [1, 2, 0] 3 [1, 1, 3] = [3, 1, 1] := by decide
+example : (Comb.Ex.t3.combineLegs [[.idx 2, .idx 0]] none none [some 1]).toOption.map
+      (fun r => (r.shape, r.labels, r.entry [1, 7])) = some ([3, 16], [some "b", some "(?2.a)"], Comb.Ex.t3.entry [3, 1, 1]) := by
+  decide
+
+/-- **`split_legs ∘ combine_legs` in standard form** (C06, first sentence): splitting exactly the new pipe axes of
+`combine_legs(a, …)` returns a tensor with the legs of `a`, the dense form of `a` (entry by entry), the total charge of
+`a`, and it is well formed; all branches of both functions (no block, one block, the two workers). With the label
+hypotheses (`labels` = one string per leg of `a`, the labels inside the groups are label *pieces*) the labels are
+restored (`'?i'` placeholders back to `None`). The stored block list may differ (order, explicit zero blocks). -/
+theorem C01_split_combine_std {α : Type} [Zero α] (a r a' : Arr α) (ha : a.WF) (cl : List (List Nat)) (na : List Nat)
+    (ps : List ALeg) (labels : List String) (hl1 : na.length = cl.length) (hl2 : ps.length = cl.length)
+    (hp : Comb.PipesOK2 a cl ps) (hstd : Comb.StdForm a.rank cl na) (hne : cl ≠ [])
+    (h : a.combineStd cl na ps labels = .ok r)
+    (hs : r.splitLegs (some (na.map (fun k => Ax.idx (Int.ofNat k)))) = .ok a') :
+    a'.legs = a.legs ∧ a'.toDense = a.toDense ∧ (∀ idx, InRange idx a.shape → a'.entry idx = a.entry idx)
+    ∧ a'.mods = a.mods ∧ a'.qtotal = makeValid a.mods a.qtotal ∧ a'.WF
+    ∧ (labels.length = a.rank →
+        (∀ g, g < cl.length → cl.getD g [] ≠ [] ∧ ∀ s ∈ pick labels (cl.getD g []) "", Label.Piece s.toList) →
+        a'.labels = labels.map Comb.mkLabel) := by
+  obtain ⟨h1, h2, h3, h4, h5, _⟩ := Comb.split_combine a r a' ha cl na ps labels hl1 hl2 hp hstd hne h hs
+  exact ⟨h1, h2, h3, h4, h5, Comb.split_combine_WF a r a' ha cl na ps labels hl1 hl2 hp hstd hne h hs,
+    fun hl hpc => Comb.split_combine_labels a r a' ha cl na ps labels hl1 hl2 hp hstd hne hl hpc h hs⟩
+
+/-- **`split_legs(combine_legs(a, groups))` through the public entry points, default arguments** (`pipes = None`,
+`new_axes = None`; any `qconj`, groups given by index or label): with `transp` the transposition `combine_legs`
+performs (a permutation; the identity when the groups are runs of consecutive legs in order), splitting the new pipe
+axes returns `np.transpose(a, transp)` exactly — dense form, legs (hence charges of every index), total charge — as a
+well-formed tensor, and the labels of `a` permuted by `transp` (given that no label of `a` starts with `'?'` and the
+labels inside the groups are label pieces — decidable per instance). In particular for `transp = range` the original
+tensor is restored. -/
+theorem C01_split_combine {α : Type} [Zero α] (a r : Arr α) (ha : a.WF) (cl : List (List Ax))
+    (qconj : List (Option Int)) (hne : ∀ c ∈ cl, c ≠ []) (h : a.combineLegs cl none none qconj = .ok r) :
+    ∃ cli0 na0 transp, cl.mapM a.getLegIndices = .ok cli0
+      ∧ Arr.combineNewAxes a.rank cli0 none = .ok (na0, transp) ∧ transp.Perm (List.range a.rank)
+      ∧ ∀ a', r.splitLegs (some ((pick na0 (Arr.argsortInt (na0.map Int.ofNat)) 0).map
+            (fun k => Ax.idx (Int.ofNat k)))) = .ok a' →
+          a'.toDense = a.toDense.transpose transp ∧ a'.legs = permuteList a.legs transp default
+          ∧ a'.mods = a.mods ∧ a'.qtotal = makeValid a.mods a.qtotal ∧ a'.WF
+          ∧ (transp = List.range a.rank → a'.toDense = a.toDense ∧ a'.legs = a.legs)
+          ∧ ((∀ s, some s ∈ a.labels → s.toList.head? ≠ some '?') →
+              (∀ c ∈ cli0, c ≠ [] ∧ ∀ s ∈ pick (Comb.cLabels a) c "", Label.Piece s.toList) →
+              a'.labels = permuteList a.labels transp none) := by
+  obtain ⟨ps0, cli0, na0, transp, hps, hcli, hnt, hP, hN, _⟩ := Comb.combineLegs_default_hyps2 a r ha cl qconj hne h
+  refine ⟨cli0, na0, transp, hcli, hnt, ?_, ?_⟩
+  · -- `transp` is a permutation: the transposed-case theorem says so; the identity is one
+    by_cases htr : transp = List.range a.rank
+    · rw [htr]
+    · exact (Comb.combineLegs_places_tr a r ha cl none none qconj ps0 cli0 na0 transp hps hcli hnt htr
+        (Comb.PipesOK2.ok hP) hN h).1.perm
+  · intro a' hs
+    obtain ⟨_, s2, s3, s4, s5, _, s7⟩ :=
+      Comb.split_combineLegs a r a' ha cl none none qconj ps0 cli0 na0 transp hps hcli hnt hP hN h hs
+    refine ⟨s3, s2, s4, s5, s7, fun htr => ?_, fun hq hpc =>
+      Comb.split_combineLegs_labels a r a' ha cl none none qconj ps0 cli0 na0 transp hps hcli hnt hP hN hq hpc h hs⟩
+    rw [s3, s2, htr]
+    exact ⟨(Arr.toDense_transpose_range a).symm, TenpyModel.C01B2.permuteList_range a.legs default⟩
+
+/-- non-vacuity: the round trip on `t3` (worker branches; with and without transposition) and on the one-block tensor
+`t1` (both `stored_blocks == 1` shortcuts), `decide`d through the public entry points -/
+example : ((Comb.Ex.t3.combineLegs [[.idx 1, .idx 2]] none none [some 1]).bind (fun r => r.splitLegs (some [.idx 1]))).toOption.map
+      (fun a' => (a'.toDense, a'.lcs, a'.labels, decide a'.WF))
+    = some (Comb.Ex.t3.toDense, Comb.Ex.t3.lcs, Comb.Ex.t3.labels, true) := by decide
+example : ((Comb.Ex.t3.combineLegs [[.idx 2, .idx 0]] none none [some 1]).bind (fun r => r.splitLegs none)).toOption.map
+      (fun a' => (a'.toDense, a'.lcs, a'.labels))
+    = some (Comb.Ex.t3.toDense.transpose [1, 2, 0], permuteList Comb.Ex.t3.lcs [1, 2, 0] default,
+        [some "b", none, some "a"]) := by decide
+example : ((Comb.Ex.t1.combineLegs [[.idx 0, .idx 1]] none none [some 1]).bind (fun r => r.splitLegs none)).toOption.map
+      (fun a' => (a'.toDense, a'.lcs, a'.labels)) = some (Comb.Ex.t1.toDense, Comb.Ex.t1.lcs, Comb.Ex.t1.labels) := by
+  decide
+/-- the label hypotheses of the theorem hold for `t3` -/
+example : (∀ c ∈ [[1, 2]], c ≠ [] ∧ ∀ s ∈ pick (Comb.cLabels Comb.Ex.t3) c "", Label.Piece s.toList)
+    ∧ Comb.cLabels Comb.Ex.t3 = ["a", "b", "?2"] := by
+  simp only [Label.Piece]
   decide
